@@ -22,6 +22,7 @@
 
 use crate::codec::SketchBytes;
 use crate::codec::SketchSlice;
+use crate::codec::assert::ensure_remaining;
 use crate::codec::assert::insufficient_data;
 use crate::codec::family::Family;
 use crate::error::Error;
@@ -104,41 +105,56 @@ impl HashSet {
             .map_err(insufficient_data("coupon_count"))?;
         let coupon_count = coupon_count as usize;
 
-        if compact {
-            // Compact mode: only couponCount coupons are stored
-            // Create a new hash set and insert coupons one by one
-            let mut hash_set = HashSet::new(lg_arr);
-            for i in 0..coupon_count {
-                let coupon = cursor.read_u32_le().map_err(|_| {
-                    Error::insufficient_data(format!(
-                        "expected {coupon_count} coupons, failed at index {i}"
-                    ))
-                })?;
-                hash_set.update(coupon);
-            }
-            Ok(hash_set)
-        } else {
-            // Non-compact mode: full hash table with empty slots
-            let array_size = 1 << lg_arr;
-
-            // Read entire hash table including empty slots
-            let mut coupons = vec![0u32; array_size];
-            for (i, coupon) in coupons.iter_mut().enumerate() {
-                *coupon = cursor.read_u32_le().map_err(|_| {
-                    Error::insufficient_data(format!(
-                        "expected {array_size} coupons, failed at index {i}"
-                    ))
-                })?;
-            }
-
-            Ok(Self {
-                container: Container::from_coupons(
-                    lg_arr,
-                    coupons.into_boxed_slice(),
-                    coupon_count,
-                ),
-            })
+        if !(2..=26).contains(&lg_arr) {
+            return Err(Error::deserial(format!(
+                "lg_arr must be in [2, 26], got {lg_arr}"
+            )));
         }
+        // A compact image does not contain the table: size it for the coupons it holds rather
+        // than trusting an oversized lg_arr (the table grows at 75% load).
+        let mut lg_arr = lg_arr;
+        while compact && lg_arr > 5 && (1usize << (lg_arr - 1)) * 3 > coupon_count.saturating_mul(4) {
+            lg_arr -= 1;
+        }
+        let array_size = 1usize << lg_arr;
+
+        // Both forms are rebuilt by inserting the stored coupons one by one: the table must
+        // keep at least one empty cell for the probe sequence to terminate.
+        let num_stored = if compact { coupon_count } else { array_size };
+        ensure_remaining(&cursor, num_stored, 4, "coupons")?;
+        if coupon_count >= array_size {
+            return Err(Error::deserial(format!(
+                "coupon count {coupon_count} does not fit a table of {array_size} cells"
+            )));
+        }
+
+        let mut hash_set = HashSet::new(lg_arr);
+        for i in 0..num_stored {
+            let coupon = cursor.read_u32_le().map_err(|_| {
+                Error::insufficient_data(format!(
+                    "expected {num_stored} coupons, failed at index {i}"
+                ))
+            })?;
+            if coupon == COUPON_EMPTY {
+                if compact {
+                    return Err(Error::deserial("empty coupon in a compact coupon set"));
+                }
+                continue; // empty cell of the updatable table
+            }
+            if hash_set.container.len() + 1 >= array_size {
+                return Err(Error::deserial(format!(
+                    "more than {coupon_count} coupons in the coupon table"
+                )));
+            }
+            hash_set.update(coupon);
+        }
+        if hash_set.container.len() != coupon_count {
+            return Err(Error::deserial(format!(
+                "expected {coupon_count} distinct coupons, found {}",
+                hash_set.container.len()
+            )));
+        }
+        Ok(hash_set)
     }
 
     /// Serialize a HashSet to bytes
